@@ -156,10 +156,10 @@ def _group_integrands_by_quadrature_rule(
     """
     #
     grouped_integrands: dict[basix.CellType, dict[QuadratureRule, list[Expr]]] = {}
-    # NOTE: this variable changes throughout the loop
-    cell_type = basix_cell_from_string(ufl_cell.cellname)
     use_sum_factorization = sum_factorization and integral_type == "cell"
     for integral in integrals:
+        # Cell type of the integration entity of this integral (set by the custom and vertex schemes)
+        cell_type = basix_cell_from_string(ufl_cell.cellname)
         md = integral.metadata() or {}
         scheme = md["quadrature_rule"]
         tensor_factors = None
@@ -167,6 +167,14 @@ def _group_integrands_by_quadrature_rule(
         if scheme == "custom":
             points = md["quadrature_points"]
             weights = md["quadrature_weights"]
+            if "facet" in integral_type:
+                facet_types = basix.cell.subentity_types(cell_type)[-2]
+                assert len(set(facet_types)) == 1
+                cell_type = facet_types[0]
+            elif integral_type == "ridge":
+                ridge_types = basix.cell.subentity_types(cell_type)[-3]
+                assert len(set(ridge_types)) == 1
+                cell_type = ridge_types[0]
             rules[cell_type] = (points, weights, None)
         elif scheme == "vertex":
             # The vertex scheme, i.e., averaging the function value in the
